@@ -905,7 +905,9 @@ def replay(rec):
 def finish(total, tier, seed):
     v = total.sets.get("verdicts", set())
     need = [("inject_def", "accept"), ("inject_mod", "accept"), ("inject_mod", "reject"),
-            ("inject_bad", "reject"), ("imports", "accept"), ("imports", "reject")]
+            ("inject_bad", "reject"), ("imports", "accept"), ("imports", "reject"),
+            ("import_extend", "accept"), ("import_extend", "reject"), ("inject_none", "accept"),
+            ("reuse_sliced_host", "accept")]
     for x in need:
         if x not in v:
             raise HarnessError("vacuous: no %s verdict in family %s" % (x[1], x[0]))
@@ -932,7 +934,8 @@ MANIFEST = dict(
          "slices) x imports (children, single, deep, all; root / group / named / dotted) x later modification of "
          "source, host or imported node; hosts defined by a single-axis sliced injection that are afterwards "
          "imported / modified / injected / sliced again; referenced nodes emptied by `= none` (or defined as none, or "
-         "refilled) before the injection, for every host type; all locally and through a remote file ($source and "
+         "refilled) before the injection, for every host type; option/tag lines below a single-node import (the "
+         "copy is extended, the original, the remote source and other imports are not); all locally and through a remote file ($source and "
          "add_source); requests "
          "selecting none/several.  Plus explicit-state exploration of all DIP(env) chaining histories up to depth 3 "
          "(quick) / 4 (thorough) over 13 programs (incl. 3 failing ones): every earlier environment stays unchanged "
